@@ -260,7 +260,11 @@ func genC16(seed uint64, tier string, idx int) c16Data {
 		d.Kind = "order"
 		d.Template = r.Intn(len(orderTemplates))
 		t := orderTemplates[d.Template]
-		_, texts := idDocs(r, r.Range(0, 7))
+		ndocs := r.Range(0, 7)
+		if r.Bool(0.03) {
+			ndocs = kernel.Pick(r, []int{60, 300, 1200}) // many documents: the decoder refills its buffer between them
+		}
+		_, texts := idDocs(r, ndocs)
 		sc.Sources, sc.Stdin = splitSources(r, texts)
 		sc.Flags = []string{"-c"}
 		if t.Null {
